@@ -6,7 +6,7 @@ COQ = '/verif/coq'
 HEADER = '''From Coq Require Import ZArith List Bool Arith Lia.
 From QV Require Import Core.Bits Core.Pauli Core.Symp Core.Code Core.Span Core.Rank Core.Dist Core.DistCSS Generated.LatticeArith.
 From QV Require Import Lattice.Basic Lattice.Planar Lattice.Toric Lattice.PlanarBounded Lattice.ToricBounded Lattice.PlanarAll Lattice.ToricAll Lattice.PlanarRankAll Lattice.ToricPathWeightAll Lattice.PlanarDistAll Lattice.ToricRankAll Lattice.ToricDistAll.
-From QV Require Import Lattice.RotPlanar Lattice.RotToric Lattice.Color Lattice.RotPlanarAll Lattice.RotPlanarBounded Lattice.RotToricBounded Lattice.ColorBounded Lattice.RotPlanarValidAll Lattice.RotToricValidAll Lattice.RotToricPathAll Lattice.ColorValidAll Lattice.RotPlanarRankAll Lattice.RotPlanarDistAll Lattice.RotToricRankAll Lattice.RotToricDistAll Lattice.RotToricPathWeightAll Lattice.ColorRankAll Lattice.ColorDistAll.
+From QV Require Import Lattice.RotPlanar Lattice.RotToric Lattice.Color Lattice.RotPlanarAll Lattice.RotPlanarBounded Lattice.RotToricBounded Lattice.ColorBounded Lattice.RotPlanarValidAll Lattice.RotToricValidAll Lattice.RotToricPathAll Lattice.ColorValidAll Lattice.RotPlanarRankAll Lattice.RotPlanarDistAll Lattice.RotToricRankAll Lattice.RotToricDistAll Lattice.RotToricPathWeightAll Lattice.ColorRankAll Lattice.ColorDistAll Lattice.PathAct.
 Import ListNotations.
 Open Scope Z_scope.
 '''
@@ -87,6 +87,7 @@ SPEC = {
    ('rottoric_path_syndrome_all', 'ROTATED TORIC, ALL EVEN SIZES, arbitrary (wrapping) same-type indices: syndrome(path a b) = indicator{a, b} modulo the lattice'),
    ('rottoric_path_bsp_all', ''), ('rottoric_path_weight_le_all', 'rotated toric, all sizes: weight <= max(|dx|,|dy|)'),
    ('rottoric_path_weight_all', 'ROTATED TORIC, ALL SIZES: weight of a path = max(|tx|, |ty|) of its translation'), ('rottoric_path_syndrome_weight_all', ''), ('rottoric_paths_all', 'rotated toric, all sizes, all integer index pairs: the full path property'),
+   ('planar_path_acts_by_xor', 'ALL SIZES, any Pauli: path(a, b) acts by XOR with the path operator of the identity Pauli; applied twice it restores the Pauli'), ('planar_path_twice', ''), ('toric_path_acts_by_xor', ''), ('toric_path_twice', ''), ('rottoric_path_acts_by_xor', ''), ('rottoric_path_twice', ''),
    ('rottoric_paths_upto_8', 'rotated toric even <= 8x8 all ordered pairs'), ('rottoric_paths_wrapping_upto_6', ''),
    ('rt_translation_target', 'rotated toric, ALL SIZES: translation leads from a to b modulo the period'), ('rt_translation_defined', ''),
    ('rt_path_indices_defined', ''),
